@@ -144,3 +144,18 @@ Proof.
   { induction (gp_nodes p); simpl; auto. }
   rewrite E; auto.
 Qed.
+
+(* a swapped / copied node pattern keeps its value patterns as they are -- in particular a Constant keeps its value
+   and both tolerances (Constant.clone) -- only their order changes; everything else but the op identifier is kept *)
+Lemma swap_node_keeps : forall np np', swap_node np = Some np' ->
+  np_ins np' = rev (np_ins np) /\ np_op np' = np_op np /\ np_dom np' = np_dom np /\ np_attrs np' = np_attrs np /\
+  np_other_attrs np' = np_other_attrs np /\ np_other_ins np' = np_other_ins np /\ np_outs np' = np_outs np.
+Proof.
+  unfold swap_node; intros np np' H. destruct (np_ins np) as [| a [| b [| c t]]] eqn:E; try discriminate.
+  inversion H; subst; simpl. repeat split; auto.
+Qed.
+
+Lemma clone_node_keeps : forall np,
+  np_ins (clone_node np (np_ins np)) = np_ins np /\ np_op (clone_node np (np_ins np)) = np_op np /\
+  np_attrs (clone_node np (np_ins np)) = np_attrs np /\ np_outs (clone_node np (np_ins np)) = np_outs np.
+Proof. intro np; repeat split. Qed.
